@@ -189,15 +189,40 @@ struct WrState {
     int issued = 0;
     std::string dir;
     bool holdBlocked = false;            // C07: count attempts only
+    bool smallSnd = false;               // C07: the server side of the stalled connection gets a small send buffer before its first write:
+                                         // every entry then runs into would-block many times, each time after some progress
     long attempts = 0;
 } WR;
 
 unsigned char patternByte(size_t w, size_t p) { return static_cast<unsigned char>((w * 31 + p * 7 + (p >> 8)) & 0xff); }
 
+// the epoll interest mask currently registered for descriptor `fd` (in whichever epoll instance of this process has it); -1 = none
+long interestOf(int fd)
+{
+    DIR* d = opendir("/proc/self/fd"); if (!d) return -1;
+    long found = -1;
+    while (auto* e = readdir(d)) {
+        if (e->d_name[0] == '.') continue;
+        char link[256]; std::string p = std::string("/proc/self/fd/") + e->d_name;
+        ssize_t n = ::readlink(p.c_str(), link, sizeof link - 1); if (n <= 0) continue; link[n] = 0;
+        if (strstr(link, "eventpoll") == nullptr) continue;
+        FILE* f = fopen((std::string("/proc/self/fdinfo/") + e->d_name).c_str(), "r"); if (!f) continue;
+        char line[256];
+        while (fgets(line, sizeof line, f)) {
+            int tfd; unsigned long ev;
+            if (sscanf(line, "tfd: %d events: %lx", &tfd, &ev) == 2 && tfd == fd) found = static_cast<long>(ev & 0xffff);
+        }
+        fclose(f);
+    }
+    closedir(d);
+    return found;
+}
+
 bool writeHookFn(int fd, size_t len, size_t* allowed, int* err)
 {
     std::lock_guard<std::mutex> g(WR.m);
     if (fd != WR.targetFd) return true;
+    if (WR.smallSnd) { WR.smallSnd = false; int snd = 32768; ::setsockopt(fd, SOL_SOCKET, SO_SNDBUF, &snd, sizeof snd); }
     ++WR.attempts;
     if (WR.holdBlocked) return true;
     if (WR.next < WR.script.size()) {
@@ -281,6 +306,14 @@ public:
             std::this_thread::sleep_for(std::chrono::milliseconds(30));
             stream << "second chunk"; stream << Http::flush;
             stream.ends();
+            return;
+        }
+        // "/pat<KB>": a large fixed response with a position-dependent body, sent through a small socket send buffer
+        if (req.resource().rfind("/pat", 0) == 0) {
+            size_t n = static_cast<size_t>(atoi(req.resource().c_str() + 4)) * 1024;
+            std::string body(n, '\0'); for (size_t i = 0; i < n; ++i) body[i] = static_cast<char>(patternByte(0, i));
+            int snd = 32768; ::setsockopt(response.peer()->fd(), SOL_SOCKET, SO_SNDBUF, &snd, sizeof snd);
+            response.send(Http::Code::Ok, body);
             return;
         }
         // "/big<KB>": a large fixed response (used to leave a connection with a blocked write)
@@ -755,6 +788,97 @@ std::string opTimeout2(const std::vector<std::string>& w)
     return "s1=" + std::to_string(st[0]) + " s2=" + std::to_string(st[1]) + " handler=" + std::to_string(handled);
 }
 
+// tom <timeoutMs> <kinds K|S|P,...>: several connections on ONE worker, opened in the given order: K keeps sending requests (one every
+// timeout/4 ms) on a keep-alive connection, S stays silent, P sends a partial request and stalls.  After timeout + one timer period +
+// 900 ms every S/P connection must have received 408 and been closed, every K request must have been answered 200.
+std::string opTimeoutMany(const std::vector<std::string>& w)
+{
+    if (w.size() != 3) return "bad-op";
+    Cfg c; c.hdrMs = atoi(w[1].c_str()); c.bodyMs = c.hdrMs; c.maxReq = 1 << 16; c.threads = 1;
+    auto kinds = split(w[2], ',');
+    stopEndpoint();
+    uint16_t port = ensureEndpoint(c);
+    RespScript sc; sc.mode = "send"; sc.code = 200; sc.chunks = { "ok" };
+    { std::lock_guard<std::mutex> g(G.m); G.script = sc; }
+    const int total = c.hdrMs + 500 + 900;
+    std::vector<int> fds(kinds.size(), -1); std::vector<std::string> res(kinds.size());
+    std::vector<std::thread> ths;
+    auto t0 = std::chrono::steady_clock::now();
+    auto msSince = [&] { return static_cast<int>(std::chrono::duration_cast<std::chrono::milliseconds>(std::chrono::steady_clock::now() - t0).count()); };
+    for (size_t i = 0; i < kinds.size(); ++i) {
+        fds[i] = connectTo(port); if (fds[i] < 0) return "connect-failed";
+        if (kinds[i] == "P") sendAll(fds[i], "POST /p HTTP/1.1\r\nHost: h\r\nContent-Le");
+        if (kinds[i] == "K") {
+            int fd = fds[i]; std::string* out = &res[i]; int period = std::max(50, c.hdrMs / 4);
+            ths.emplace_back([fd, out, period, total, &msSince] {
+                int bad = 0, n = 0;
+                while (msSince() < total) {
+                    if (!sendAll(fd, "GET /k HTTP/1.1\r\nHost: h\r\nConnection: keep-alive\r\n\r\n")) { ++bad; break; }
+                    std::string r = readResponse(fd, 700);
+                    ++n; if (statusOf(r) != 200) { ++bad; break; }
+                    std::this_thread::sleep_for(std::chrono::milliseconds(period));
+                }
+                *out = bad ? "K:bad" + std::to_string(statusOf("")) : "K:ok";
+            });
+        }
+        std::this_thread::sleep_for(std::chrono::milliseconds(30));
+    }
+    while (msSince() < total) std::this_thread::sleep_for(std::chrono::milliseconds(20));
+    for (auto& t : ths) t.join();
+    for (size_t i = 0; i < kinds.size(); ++i) {
+        if (kinds[i] != "K") {
+            bool cl = false; std::string r = readResponse(fds[i], 50, &cl, false);
+            res[i] = kinds[i] + ":" + std::to_string(statusOf(r)) + (cl ? "!" : "");
+        }
+        ::close(fds[i]);
+    }
+    std::string out = "conns=";
+    for (size_t i = 0; i < res.size(); ++i) { if (i) out += ","; out += res[i]; }
+    return out;
+}
+
+// respslow <KB>: a fixed-length response of KB*1024 position-dependent bytes written through a 32 KB socket send buffer to a client that
+// reads in bursts with pauses: the ONE queued buffer runs into would-block again and again, each time with more of it out.  What the
+// client finally holds must be one well-framed response whose Content-Length and body are exactly what the handler sent.
+std::string opRespSlow(const std::vector<std::string>& w)
+{
+    if (w.size() != 2) return "bad-op";
+    size_t n = static_cast<size_t>(atoi(w[1].c_str())) * 1024;
+    Cfg c; c.maxResp = 64u << 20; uint16_t port = ensureEndpoint(c);
+    int fd = ::socket(AF_INET, SOCK_STREAM, 0); int rcv = 4096; ::setsockopt(fd, SOL_SOCKET, SO_RCVBUF, &rcv, sizeof rcv);
+    sockaddr_in sa {}; sa.sin_family = AF_INET; sa.sin_port = htons(port); sa.sin_addr.s_addr = htonl(INADDR_LOOPBACK);
+    if (::connect(fd, reinterpret_cast<sockaddr*>(&sa), sizeof sa) != 0) { ::close(fd); return "connect-failed"; }
+    sendAll(fd, "GET /pat" + w[1] + " HTTP/1.1\r\nHost: h\r\n\r\n");
+    std::this_thread::sleep_for(std::chrono::milliseconds(80));
+    std::string got; std::vector<char> tmp(1 << 20);
+    for (int burst = 0; burst < 8; ++burst) {
+        size_t want = got.size() + 200000;
+        while (got.size() < want) {
+            pollfd p { fd, POLLIN, 0 };
+            if (::poll(&p, 1, 300) <= 0) break;
+            ssize_t k = ::recv(fd, tmp.data(), std::min(tmp.size(), want - got.size()), 0); if (k <= 0) break;
+            got.append(tmp.data(), static_cast<size_t>(k));
+        }
+        std::this_thread::sleep_for(std::chrono::milliseconds(40));
+    }
+    for (;;) {
+        pollfd p { fd, POLLIN, 0 };
+        if (::poll(&p, 1, 700) <= 0) break;
+        ssize_t k = ::recv(fd, tmp.data(), tmp.size(), 0); if (k <= 0) break;
+        got.append(tmp.data(), static_cast<size_t>(k));
+    }
+    ::close(fd);
+    size_t he = got.find("\r\n\r\n");
+    if (he == std::string::npos) return "status=0 cl=-1 recv=" + std::to_string(got.size()) + " match=0";
+    std::string lower = got.substr(0, he + 2); for (auto& ch : lower) ch = static_cast<char>(tolower(static_cast<unsigned char>(ch)));
+    size_t clp = lower.find("\r\ncontent-length:");
+    long cl = clp == std::string::npos ? -1 : strtol(got.c_str() + clp + 17, nullptr, 10);
+    size_t blen = got.size() - (he + 4); size_t firstDiff = std::string::npos;
+    for (size_t i = 0; i < blen; ++i) if (static_cast<unsigned char>(got[he + 4 + i]) != patternByte(0, i)) { firstDiff = i; break; }
+    (void)n;
+    return "status=" + std::to_string(statusOf(got)) + " cl=" + std::to_string(cl) + " recv=" + std::to_string(blen) + " match=" + (firstDiff == std::string::npos ? "1" : "0:" + std::to_string(firstDiff));
+}
+
 // life <hdrMs> <threads> <scripts a,b,c...>: one connection per script, all opened first, then the actions are played position by
 // position across the connections.  Actions: R full request + read the response, P partial request, C close, H half-close (shutdown
 // WR, read to EOF, close), X reset (SO_LINGER 0), T silence for hdr + 1300 ms (then read what the server sent), W wait 50 ms,
@@ -952,6 +1076,7 @@ std::string opStall(const std::vector<std::string>& w)
     int nw = atoi(w[1].c_str()); size_t size = strtoul(w[2].c_str(), nullptr, 10); int holdMs = atoi(w[3].c_str()); int nB = atoi(w[4].c_str());
     bool second = w.size() == 6 && w[5] == "1";
     bool third = w.size() == 6 && w[5] == "2";     // another connection becomes readable just before A becomes writable: both in one epoll batch
+    bool smallbuf = w.size() == 6 && w[5] == "3";  // small send buffer on the server side of A: many would-blocks per entry, each after progress
     Cfg c; c.threads = 1; uint16_t port = ensureEndpoint(c);
     RespScript sc; sc.mode = "send"; sc.code = 200; sc.chunks = { "ok" };
     { std::lock_guard<std::mutex> g(G.m); G.script = sc; }
@@ -959,7 +1084,7 @@ std::string opStall(const std::vector<std::string>& w)
     {
         std::lock_guard<std::mutex> g(WR.m);
         WR.active = true; WR.foreign = false; WR.pattern.clear(); WR.writes = ws; WR.script.clear(); WR.next = 0; WR.targetFd = -1;
-        WR.calls.clear(); WR.promises.clear(); WR.settles.clear(); WR.issued = 0; WR.dir = selfDir(); WR.holdBlocked = true; WR.attempts = 0;
+        WR.calls.clear(); WR.promises.clear(); WR.settles.clear(); WR.issued = 0; WR.dir = selfDir(); WR.holdBlocked = true; WR.attempts = 0; WR.smallSnd = smallbuf;
     }
     Pistache::Verif::writeHook = &writeHookFn;
     // A: tiny receive buffer so that the server side fills up quickly
@@ -981,7 +1106,9 @@ std::string opStall(const std::vector<std::string>& w)
         std::this_thread::sleep_for(std::chrono::milliseconds(nB ? holdMs / nB : holdMs));
     }
     if (nB == 0) std::this_thread::sleep_for(std::chrono::milliseconds(holdMs));
-    long attemptsDuring; { std::lock_guard<std::mutex> g(WR.m); attemptsDuring = WR.attempts - attemptsBefore; }
+    long attemptsDuring; int srvFd; { std::lock_guard<std::mutex> g(WR.m); attemptsDuring = WR.attempts - attemptsBefore; srvFd = WR.targetFd; }
+    // data is queued for A and its socket is full: write interest must be registered with the worker's epoll (EPOLLOUT = 4)
+    long maskDuring = interestOf(srvFd);
     int fc = -1; int cAnswered = -1;
     if (third) {
         // C is an established, idle connection; while the worker is busy with B, C's request arrives (readable) and then A starts
@@ -1002,6 +1129,20 @@ std::string opStall(const std::vector<std::string>& w)
     }
     // A starts reading
     std::string got; std::vector<char> tmp(1 << 20);
+    if (smallbuf) {
+        // in bursts with pauses first: after each burst the server's small send buffer fills up again and the SAME queue entry runs
+        // into would-block once more, each time with more of it already out
+        for (int burst = 0; burst < 6 && got.size() < total; ++burst) {
+            size_t want = got.size() + 300000;
+            while (got.size() < want && got.size() < total) {
+                pollfd p { fa, POLLIN, 0 };
+                if (::poll(&p, 1, 300) <= 0) break;
+                ssize_t n = ::recv(fa, tmp.data(), std::min(tmp.size(), want - got.size()), 0); if (n <= 0) break;
+                got.append(tmp.data(), static_cast<size_t>(n));
+            }
+            std::this_thread::sleep_for(std::chrono::milliseconds(40));
+        }
+    }
     for (;;) {
         if (got.size() >= total) break;
         pollfd p { fa, POLLIN, 0 };
@@ -1015,6 +1156,9 @@ std::string opStall(const std::vector<std::string>& w)
     }
     if (second || third) readResponse(fb, 600);
     if (third) { cAnswered = statusOf(readResponse(fc, 1500)) == 200 ? 1 : 0; ::close(fc); }
+    // everything is out: write interest must be gone again
+    std::this_thread::sleep_for(std::chrono::milliseconds(10));
+    long maskAfter = interestOf(srvFd);
     ::close(fb);
     ::close(fa);
     std::this_thread::sleep_for(std::chrono::milliseconds(20));
@@ -1026,11 +1170,12 @@ std::string opStall(const std::vector<std::string>& w)
             if (pos >= got.size() || static_cast<unsigned char>(got[pos]) != patternByte(i, p)) { firstDiff = pos; break; }
     if (firstDiff == std::string::npos && got.size() != total) firstDiff = total;
     std::lock_guard<std::mutex> g(WR.m);
-    WR.active = false; WR.holdBlocked = false;
+    WR.active = false; WR.holdBlocked = false; WR.smallSnd = false;
     std::string out = "banswered=" + std::to_string(answered) + " bworst=" + std::string(worst < 400 ? "fast" : "slow") + " attempts=" + (attemptsDuring <= 50 ? "few" : "many")
         + " recv=" + std::to_string(got.size()) + " match=" + (firstDiff == std::string::npos ? "1" : "0:" + std::to_string(firstDiff)) + " promises=";
     for (size_t i = 0; i < WR.promises.size(); ++i) { if (i) out += ","; out += WR.promises[i] + (WR.settles[i] > 1 ? "x" + std::to_string(WR.settles[i]) : ""); }
     if (WR.promises.empty()) out += "-";
+    out += std::string(" wint=") + (maskDuring < 0 ? "?" : (maskDuring & 4) ? "1" : "0") + (maskAfter < 0 ? "?" : (maskAfter & 4) ? "1" : "0");
     if (third) out += " c=" + std::to_string(cAnswered);
     out += " raw_worst_ms=" + std::to_string(worst) + " raw_attempts=" + std::to_string(attemptsDuring);
     return out;
@@ -1120,8 +1265,12 @@ struct ScriptedServer {
 
 // cl <threads> <maxconn> <settleMs> <behaviours: I|D<ms>|B|K|X|N, each optionally :t<ms> = client time-out, comma separated;
 //    a token "/" = the requests after it are issued only when all earlier ones are settled (batches)>
-std::string opClient(const std::vector<std::string>& w)
+// clp <threads> <maxconn> <settleMs> <appthreads> <behaviours>: the same, but the requests are issued by <appthreads> APPLICATION
+// threads released together (request i by thread i mod appthreads): the first requests of a fresh client reach the pool concurrently
+std::string opClient(const std::vector<std::string>& w0)
 {
+    std::vector<std::string> w = w0; int app = 1;
+    if (w.size() == 6 && w[0] == "clp") { app = atoi(w[4].c_str()); w.erase(w.begin() + 4); if (app < 1 || app > 16) return "bad-op"; }
     if (w.size() != 5) return "bad-op";
     int threads = atoi(w[1].c_str()), maxconn = atoi(w[2].c_str()), settle = atoi(w[3].c_str());
     std::vector<Behaviour> beh; std::vector<bool> breakBefore;     // "/" = the following requests are issued only after all earlier ones are settled
@@ -1150,8 +1299,8 @@ std::string opClient(const std::vector<std::string>& w)
         }
         std::this_thread::sleep_for(std::chrono::milliseconds(30));
     };
-    for (size_t i = 0; i < beh.size(); ++i) {
-        if (breakBefore[i]) waitSettled(i);
+    std::mutex keepM;
+    auto issue = [&](size_t i) {
         auto rb = client.get("http://127.0.0.1:" + std::to_string(srv.port) + "/r" + std::to_string(i));
         if (beh[i].timeoutMs > 0) rb.timeout(std::chrono::milliseconds(beh[i].timeoutMs));
         auto p = rb.send();
@@ -1160,7 +1309,23 @@ std::string opClient(const std::vector<std::string>& w)
                    std::string what = "?"; try { std::rethrow_exception(e); } catch (const std::exception& x) { what = x.what(); } catch (...) { }
                    std::string cls = what == "Timeout" ? "timeout" : (what.find("closed") != std::string::npos ? "closed" : "error");
                    std::lock_guard<std::mutex> g(res.m); res.out[i] = "rej:" + cls; ++res.count[i]; });
-        keep.push_back(std::move(p));
+        std::lock_guard<std::mutex> g(keepM); keep.push_back(std::move(p));
+    };
+    if (app == 1) {
+        for (size_t i = 0; i < beh.size(); ++i) {
+            if (breakBefore[i]) waitSettled(i);
+            issue(i);
+        }
+    } else {
+        std::atomic<int> ready { 0 }; std::atomic<bool> go { false };
+        std::vector<std::thread> ths;
+        for (int t = 0; t < app; ++t) ths.emplace_back([&, t] {
+            ++ready; while (!go.load()) { }
+            for (size_t i = static_cast<size_t>(t); i < beh.size(); i += static_cast<size_t>(app)) issue(i);
+        });
+        while (ready.load() < app) std::this_thread::yield();
+        go = true;
+        for (auto& th : ths) th.join();
     }
     // wait until everything is settled or the settle time is over
     auto t0 = std::chrono::steady_clock::now();
@@ -1177,6 +1342,7 @@ std::string opClient(const std::vector<std::string>& w)
     std::string out = "results=";
     std::lock_guard<std::mutex> g(res.m);
     for (size_t i = 0; i < res.out.size(); ++i) { if (i) out += ","; out += res.out[i] + (res.count[i] > 1 ? "x" + std::to_string(res.count[i]) : ""); }
+    if (app > 1) return out + " peak=" + (peak <= maxconn ? std::string("ok") : std::to_string(peak));
     return out + " peak=" + std::to_string(peak);
 }
 
@@ -1197,8 +1363,11 @@ int main()
     ops["wr"] = opWr;
     ops["stall"] = opStall;
     ops["cl"] = opClient;
+    ops["clp"] = opClient;
     ops["to"] = opTimeout;
     ops["to2"] = opTimeout2;
+    ops["tom"] = opTimeoutMany;
+    ops["respslow"] = opRespSlow;
     ops["rtresp"] = opRtResp;
     int rc = runLoop(ops, 30);
     stopEndpoint();
